@@ -133,9 +133,11 @@ def run_chef_scenario(p, wd):
     for ci, ((kind, recipe, newnames, opt), kept, serial) in enumerate(chosen):
         out = os.path.join(wd, f"ck_{ci}")
         kw = dict(plotfile=path, recipe=recipe, outfile=out, serial=serial, kept_fields=kept)
-        o2 = {"pressure": 1.0}
+        # several cooks in one process, each with its own pressure: a cook depends on its own arguments only
+        pres = [1.0, 3.0, 0.5][ci % 3]
+        o2 = {"pressure": pres}
         if thermo:
-            kw.update(mech=MECH, pressure=1.0)
+            kw.update(mech=MECH, pressure=pres)
             if "species" in opt:
                 kw["species"] = opt["species"] if isinstance(opt["species"], str) else list(opt["species"])
                 if opt["species"] in ("all", ["all"]):
@@ -147,7 +149,7 @@ def run_chef_scenario(p, wd):
                 kw["reactions"] = list(opt["reactions"])
                 o2["reactions"] = list(opt["reactions"])
                 newnames = [f"R{i}" for i in opt["reactions"]]
-        what = f"Chef(recipe={kind}, kept_fields={kept!r}, serial={serial}{', ' + str(opt) if opt else ''}).cook()"
+        what = f"Chef(recipe={kind}, kept_fields={kept!r}, serial={serial}{', pressure=' + str(pres) if thermo else ''}{', ' + str(opt) if opt else ''}).cook()  [cook #{ci + 1} of this process]"
         checks += 1
         # parallel mode uses a pathos pool: substitute the controllable pool (pathos caches its pool across instances)
         old_pool = chefmod.Pool
